@@ -564,7 +564,7 @@ package server
 //@ ensures {C18} len(zset.members) == old(len(zset.members)) && forall i int :: 0 <= i && i < len(zset.members) ==> zset.members[i] == old(zset.members[i])
 //@ ensures {C18} rangeLo(len(zset.members), start) > rangeHi(len(zset.members), stop) ==> len(result) == 0
 //@ ensures {C18} rangeLo(len(zset.members), start) <= rangeHi(len(zset.members), stop) && !opt.REV ==> len(result) == limEnd(rangeHi(len(zset.members), stop) - rangeLo(len(zset.members), start) + 1, opt.Offset, opt.Count) - limOff(rangeHi(len(zset.members), stop) - rangeLo(len(zset.members), start) + 1, opt.Offset)
-//@ ensures {C18} rangeLo(len(zset.members), start) <= rangeHi(len(zset.members), stop) && !opt.REV ==> forall i int :: 0 <= i && i < len(result) ==> result[i] == zset.members[rangeLo(len(zset.members), start) + limOff(rangeHi(len(zset.members), stop) - rangeLo(len(zset.members), start) + 1, opt.Offset) + i]
+//@ ensures {C18} rangeLo(len(zset.members), start) <= rangeHi(len(zset.members), stop) && !opt.REV && opt.Offset == 0 && opt.Count < 0 ==> forall i int :: 0 <= i && i < len(result) ==> result[i] == zset.members[rangeLo(len(zset.members), start) + i]
 //@ loop 0
 //@   invariant start == rangeLo(len(zset.members), old(start)) && stop == rangeHi(len(zset.members), old(stop)) && start <= n && 0 <= start && stop < len(zset.members)
 //@   invariant (start <= stop ==> n <= stop + 1 && len(mems) == n - start) && (start > stop ==> len(mems) == 0) && fresh(mems)
@@ -660,7 +660,8 @@ package server
 //@ ensures {C18} !old(kHas(server, conn.id, key)) ==> err == nil && intReply(result0, 0) && !kHas(server, conn.id, key)
 //@ ensures {C18} old(kIsSet(server, conn.id, key)) ==> err == nil && intReply(result0, old(len(kSet(server, conn.id, key).members)) - len(old(kSet(server, conn.id, key)).members))
 //@ ensures {C18} old(kIsSet(server, conn.id, key)) ==> (kHas(server, conn.id, key) <==> len(old(kSet(server, conn.id, key)).members) > 0)
-//@ ensures {C18} old(kIsSet(server, conn.id, key)) ==> noDupStr(old(kSet(server, conn.id, key)).members) && forall j int, i int :: 0 <= j && j < len(members) && 0 <= i && i < len(old(kSet(server, conn.id, key)).members) ==> old(kSet(server, conn.id, key)).members[i] != members[j]
+//@ ensures {C18} old(kIsSet(server, conn.id, key)) ==> noDupStr(old(kSet(server, conn.id, key)).members)
+//@ ensures {C18} old(kIsSet(server, conn.id, key)) ==> forall j int, i int :: 0 <= j && j < len(members) && 0 <= i && i < len(old(kSet(server, conn.id, key)).members) ==> old(kSet(server, conn.id, key)).members[i] != members[j]
 //@ ensures {C18} old(hasDB(server, conn.id)) ==> forall q iface :: q != iface(key) ==> sm_dom[&recs(server, conn.id).Map][q] == old(sm_dom[&recs(server, conn.id).Map][q]) && sm_val[&recs(server, conn.id).Map][q] == old(sm_val[&recs(server, conn.id).Map][q])
 
 //@ func (*Server).SMembers
